@@ -91,6 +91,10 @@ func (*connectHandler) SetTimeout(request *http.Request) (context.Context, conte
 	if len(timeout) > 10 {
 		return nil, nil, errorf(CodeInvalidArgument, "parse timeout: %q has >10 digits", timeout)
 	}
+	// The grammar is 1*10DIGIT: ParseInt would also accept a sign.
+	if first := timeout[0]; first == '+' || first == '-' {
+		return nil, nil, errorf(CodeInvalidArgument, "parse timeout: %q is not a sequence of digits", timeout)
+	}
 	millis, err := strconv.ParseInt(timeout, 10 /* base */, 64 /* bitsize */)
 	if err != nil {
 		return nil, nil, errorf(CodeInvalidArgument, "parse timeout: %w", err)
